@@ -254,6 +254,25 @@ func RunC03(r *sim.Run) {
 				break
 			}
 			r.Probe("endpoint_disabled_while_its_probe_hangs")
+			if t.Draw(2) == 0 {
+				// meanwhile new connections to it are refused: the dispatcher asks for an
+				// immediate probe, which has to wait behind the hanging one
+				st.DialMode = "refused"
+				for k := t.Range(1, 3); k > 0; k-- {
+					nReq++
+					id := fmt.Sprintf("q%d", nReq)
+					verb, target := "get", "/api/v1/namespaces/default/pods/p1"
+					if t.Draw(2) == 1 {
+						verb, target = "list", "/api/v1/namespaces/default/pods"
+					}
+					w.SetScript(id, &Script{Status: 200, Body: []byte("ok-" + id)})
+					q := &Req{ID: id, Host: "alpha", Method: "GET", Target: target, Headers: [][2]string{{"Authorization", "Bearer tok"}, {"X-Verb", verb}}}
+					w.Send(q)
+					r.Logf("send %s %s (dials to %s are refused) -> done=%v status=%d", id, verb, s.ep, q.Done, q.Status)
+					w.Boundary()
+				}
+				st.DialMode = ""
+			}
 			for _, dis := range []bool{true, false} {
 				s.disabled = dis
 				specChanges++
